@@ -464,18 +464,11 @@ func (s *Shaper) matchBack(t *Tok, keep func(*Tok) bool, n int, ok func(int, *To
 	return true
 }
 
-// nextLookahead: like next; inside a nested application it is unspecified
-// whether lookahead may see glyphs beyond the parent's match, so reaching
-// the range end there marks the outcome undefined.
+// nextLookahead: like next, but not limited to the parent's match inside a nested application: the
+// input of a nested lookup must lie inside the parent's match, its backtrack and lookahead context is
+// the whole glyph sequence (all implementations agree, cf. case 5_09 of the repository's test cases).
 func (s *Shaper) nextLookahead(t, end *Tok, keep func(*Tok) bool) *Tok {
-	n := s.next(t, end, keep, nil)
-	if n == nil && end != nil {
-		// would an unrestricted look-ahead find a glyph?
-		if s.next(t, nil, keep, nil) != nil {
-			s.undefined("look-ahead of a nested lookup reaches beyond the parent match")
-		}
-	}
-	return n
+	return s.next(t, nil, keep, nil)
 }
 
 func (s *Shaper) matchAhead(last, end *Tok, keep func(*Tok) bool, n int, ok func(int, *Tok) bool) bool {
